@@ -297,6 +297,25 @@ func c06R2(ic *IC, r *Report) {
 			if ok && fieldOrLocalCopy(ic, fi.Decl.Body, rs.X, defFld) {
 				reads++
 				key := name + "/consumer"
+				// the list consumed is the frame's list, whatever happened to the run: a local copy of it is
+				// assigned once (round-6 seed dropped the deferred calls of a cancelled frame, so a
+				// defer mu.Unlock() never ran and every later user of the lock blocked)
+				if lid := identOf(rs.X); lid != nil {
+					lobj := ic.Info.ObjectOf(lid)
+					nAssign := 0
+					ast.Inspect(fi.Decl.Body, func(q ast.Node) bool {
+						if as, ok := q.(*ast.AssignStmt); ok {
+							for _, l := range as.Lhs {
+								if x := identOf(l); x != nil && ic.Info.ObjectOf(x) == lobj {
+									nAssign++
+								}
+							}
+						}
+						return true
+					})
+					r.Check(nAssign == 1, "R06.2", key+"/list-not-replaced", ic.pos(rs.Pos()), "the unwinding loop consumes the frame's own list of deferred calls",
+						fmt.Sprintf("the local copy of frame.deferred consumed by the unwinding loop of %s is assigned %d times: on some path the deferred calls of the frame are dropped (or replaced), so a deferred mu.Unlock() or file close of the function never runs", name, nAssign))
+				}
 				// forward range, body calls val[0].Call(val[1:])
 				valObj := types.Object(nil)
 				if id, ok := rs.Value.(*ast.Ident); ok {
